@@ -1,2 +1,7 @@
 import Rtsp.Props.C04
-#print axioms Rtsp.Frame.sample_roundtrip
+#print axioms Rtsp.C04.parse_serialize
+#print axioms Rtsp.C04.chunk_independent
+#print axioms Rtsp.C04.roundtrip_any_chunking
+#print axioms Rtsp.C04.readElem_monotone
+#print axioms Rtsp.C04.strict_prefix_needs_more
+#print axioms Rtsp.C04.sample_wellFormed
